@@ -1753,6 +1753,18 @@ func (rpi RetentionPolicyInfo) clone() RetentionPolicyInfo {
 		}
 	}
 
+	// Copy subscriptions: DropSubscription shifts the slice in place and
+	// CreateSubscription appends into its spare capacity.
+	if rpi.Subscriptions != nil {
+		other.Subscriptions = make([]SubscriptionInfo, len(rpi.Subscriptions))
+		for i := range rpi.Subscriptions {
+			other.Subscriptions[i] = rpi.Subscriptions[i]
+			if d := rpi.Subscriptions[i].Destinations; d != nil {
+				other.Subscriptions[i].Destinations = append([]string(nil), d...)
+			}
+		}
+	}
+
 	return other
 }
 
